@@ -20,7 +20,7 @@ CLAIMS = {
             "final-block sanity gates dominate the first block load, that data-sized allocations are bounded, and that no "
             "explicit panic / dropped error is reachable from the file-reading entry points, and that every index / slice of a "
             "byte buffer on those paths is in range by a dominating comparison on the same buffer (exceptions listed with "
-            "reasons).  Does not decide detection of every flip nor integer-overflow panics.", "§4 C09, §9.1"),
+            "reasons).  A message a constructor decodes straight from file bytes and keeps must be covered by a checksum comparison (the SST final block is not: known finding F19).  Does not decide detection of every flip nor integer-overflow panics.", "§4 C09, §9.1"),
     "C12": ("ORDER/GUARDED/ORIGIN over the log writer and reader CFGs; writer/reader discriminant table agreement; R-ERR + explicit-panic + implicit-bounds audit; re-evaluates C02.1 (ack after covering fdatasync, offset covers the batch) and C18.1 (queue hand-off)",
             "Decides: append acknowledges only after the covering fdatasync; frame CRC gate and header size bounds dominate "
             "the hand-out; the discriminants written equal those accepted and FIRST is completed only by SECOND; split "
@@ -45,7 +45,7 @@ CLAIMS = {
             "accumulate every entry and seal writes that digest, GC adds each dropped entry to the discard it reports, the "
             "verifier's gates exist, fail closed and dominate its verdict, every edit refreshes the state the final gate checks, and "
             "the verifier reads every file a transaction adds and recomputes its setsum (the necessary condition of rejecting an "
-            "altered output).  Does not decide that the numbers are right for every history or that every tamper is rejected.", "§4 C04"),
+            "altered output).  The GC replay accepts only once the replayed collector is exhausted (a retained key in no output is a loss wherever it sorts).  Does not decide that the numbers are right for every history or that every tamper is rejected.", "§4 C04"),
     "C05": ("who-may-call + GUARDED (GC only under top_level), loop-body MUSTPASS (every entry read is written; every input/output wired; every policy child consulted), per-key state reset analysis, accumulator shape of the policy combinators, ORIGIN",
             "Decides rewrite completeness and GC confinement: GC is reachable only on the top_level edge and only with the "
             "configured policy; a plain compaction writes every entry it reads and leaves its loop only at end of input; "
@@ -65,14 +65,14 @@ CLAIMS = {
             "the leader publishes every taken waiter's output before leaving and clears doing_work; wait-list head/tail change "
             "only under its lock in link/_unlink; LRU size and key map change together and nodes are freed after unmapping, "
             "raw derefs only under the cache lock; a wait that re-waits on a private predicate is used only where every writer of "
-            "that predicate holds the mutex slept with, every other wait is re-entered in a loop.  Does not decide "
+            "that predicate holds the mutex slept with, every other wait is re-entered in a loop.  an unlink that finds a parked linker always announces the free slot; a use (lookup hit, overwrite, insert) makes the LRU entry the most recently used.  Does not decide "
             "exactly-once/ordering under all interleavings.", "§4 C18"),
     "C20": ("whole-program Acquires/MayWait summaries (call graph + typed Drop glue) -> lock-order graph cycles; condvar wait/notify discipline via HELD (Mutex and RwLock guards); ORDER/MUSTPASS for announcements, claim release and the mandatory-compaction emit; re-evaluates the coalescing-queue and wait-list rules C18.1/2/5 that every write passes through",
             "Decides deadlock-freedom structure: no two locks are taken in both orders (one flag-gated pair checked and excepted), "
             "waits re-check their predicate inside one critical section, notifications cannot race a predicate check, the set of "
             "(lock held, condvar waited) pairs equals a triaged table, every awaited state change is announced, failed compactions "
             "release their claim, a compaction chosen as mandatory is emitted on every path under no score comparison (only the optional "
-            "candidate is score-gated).  Does not decide that a relieving compaction is always found by the search, nor fairness.", "§4 C20"),
+            "candidate is score-gated).  The ingest stall predicate compares only quantities the mandatory-compaction predicate also compares and reads nothing but the version; option limits that end the compaction search exempt level 0 (the file-count limits do not: known finding F17).  Does not decide that a relieving compaction is always found by the search, nor fairness.", "§4 C20"),
     "C01": ("ORDER/GUARDED/ORIGIN over KeyValueStore::load, Version::load, open/recover; re-evaluates the sibling rules a point read depends on (C06.1/3/4/5, C02.4/5, C10.2, C05.1/5, C13.5, C08.4/6); worklist-relaxation MUSTPASS in recover",
             "Decides the lookup-precedence and freshness skeleton: mem before imm before tree with early exit on hit or tombstone; "
             "L0 newest-first before deeper levels; batches stamped with the fresh sequence number before use; publish after "
@@ -104,7 +104,7 @@ CLAIMS = {
     "C17": ("atomic-ordering operand table with identity-only slice for Relaxed loads, ORDER with cycles (initialise before publish), value slice of the level index (bottom-up linking), who-may-call for deref/free",
             "Decides publication order and confinement: Release stores / AcqRel CAS / Acquire loads on every pointer that can be "
             "dereferenced, the successor is stored into a new node before every linking CAS (on each retry, same observed value), "
-            "levels are linked bottom-up starting at level 0, raw derefs only in node_ptr::deref, frees only in the last owner's Drop.  Does not decide lost inserts or ordered "
+            "levels are linked bottom-up starting at level 0, raw derefs only in node_ptr::deref, frees only in the last owner's Drop.  the four searches share one skeleton (top level first, one level down at a time, right only onto a non-null node strictly before the key, answers only at level 0, pointer pairs recorded at every level) and a keyed search answers with the successor its deciding comparison examined, never a second read of the link.  Does not decide lost inserts or ordered "
             "iteration under every interleaving.", "§4 C17"),
     "C14": ("constructor-discipline ORIGIN (with &mut-fill detection), operator table ORDER/MUSTPASS, const evaluation of SETSUM_PRIMES (primality), framing constants read from MIR, loop totality (iterator type, per-iteration store MUSTPASS, no early exit) of the column loops",
             "Decides the representation-invariant discipline the algebra needs: every Setsum state comes from zero, add_state or "
@@ -128,7 +128,7 @@ CLAIMS = {
             "inverse, four-bit and total; the compact format's tag ranges are ordered, 9 wide, disjoint and contiguous; the "
             "descending byte map is an involution that keeps the continuation bit and reverses data-bit order (its prefix-order "
             "clause fails: known finding F14); the sign-offset mapping of i32 / i64 is strictly increasing from signed to unsigned order on every "
-            "value and decode is its inverse (tabulated, not sampled); the compact format's width table is exact.  Order preservation in general, prefix contiguity and value round-trip are NOT "
+            "value and decode is its inverse (tabulated, not sampled); the compact format's width table is exact.  tuple_key2's byte-string framing is written and read by one table (a NUL and only a NUL is followed by the escape, 00 00 ends the element, the reader undoes exactly that).  Order preservation in general, prefix contiguity and value round-trip are NOT "
             "decided.", "§4 C16, §10"),
     "C10": ("ORDER/MUSTPASS/SIBLINGS over builder put/del/seal, ORIGIN of index keys and final-block fields, maximum encoded sizes computed from field tables of the expanded derives vs. evaluated size constants; path-wise comparison-guard proof for divide_keys",
             "Decides builder gates and format tables: length/size/sort-order gates precede every mutation and agree between put "
@@ -146,7 +146,7 @@ CLAIMS = {
             "back, hand-written readers' expected tags are emitted, and the derived pack/unpack tables of scrunch's messages "
             "agree; plus two small structural clauses: all bit-vector implementations reject the same indices in access (>= len) "
             "and rank (> len), and a backward-search step returns an empty range whenever one of its input ranges is empty.  "
-            "Everything numerical in C19 (search positions, counts, rank/select/access, record mapping, extraction) is "
+            "Index writers drive no loop by a zip() whose sides can differ in length.  Everything numerical in C19 (search positions, counts, rank/select/access, record mapping, extraction) is "
             "NOT decided by static analysis and is not claimed.", "§4 C19"),
 }
 
